@@ -17,6 +17,19 @@ LEVEL = "exploration"
 def make_world(seed, collide):
     w = world.standard_world(seed, n_chroms=3, genes_per_chrom=4, hidden=True, mono_genes=True)
     # make sure there are hidden isoforms on every chromosome
+    # unannotated loci (novel genes): genes whose isoforms are all hidden from the annotation
+    rng0 = w.rng
+    for ci, chrom in enumerate(w.chrom_order):
+        pos = max([g.end for g in w.genes if g.chrom == chrom] + [1000]) + 2500
+        for k in range(3):
+            if pos + 9000 > w.chrom_len(chrom):
+                break
+            g, end = w.make_gene("U%d_%d" % (ci + 1, k + 1), chrom, pos, rng0.choice("+-"), n_exons=rng0.randint(3, 5), n_iso=1)
+            g.hidden = g.transcripts
+            for t in g.hidden:
+                t.annotated = False
+            g.transcripts = []
+            pos = end + rng0.randint(2000, 3000)
     world.add_standard_reads(w, per_transcript=6, jitter=2, hidden_cov=7, polya_frac=0.7)
     id_map = {}
     exon_ids = {}
@@ -54,7 +67,8 @@ def check_outputs(chk, o, w, id_map, exon_ids, annotated, wit, desc):
     ref_t = {}
     for t in w.all_transcripts():
         ref_t[id_map.get(t.id, t.id)] = (t.chrom, t.strand, tuple(t.exons))
-    ref_g = set(id_map.get(g.id, g.id) for g in w.genes) if annotated else set()
+    ref_g = set(id_map.get(g.id, g.id) for g in w.genes if g.transcripts) if annotated else set()
+    ref_g_span = {id_map.get(g.id, g.id): (g.chrom, g.start, g.end, g.strand) for g in w.genes if g.transcripts} if annotated else {}
     if not annotated:
         ref_t = {}
     files = [("transcript_models.gtf", o.models())]
@@ -73,6 +87,13 @@ def check_outputs(chk, o, w, id_map, exon_ids, annotated, wit, desc):
                 chk.violation("transcript-id-on-several-loci:" + fname, "%s: %s has exons on %s %s genes %s" % (desc, tid, t["chrs"], t["strands"], t["genes"]), wit)
             if tid not in gm.transcript_recs:
                 chk.violation("exons-without-transcript-record:" + fname, "%s: %s" % (desc, tid), wit)
+            gid = t["gene"]
+            if gid in ref_g_span and tid not in ref_t:
+                gc, gs, ge, gstr = ref_g_span[gid]
+                ex_ = sorted(t["exons"])
+                if gc != t["chr"] or ex_[-1][1] < gs or ex_[0][0] > ge:
+                    chk.violation("novel-id-collides-with-reference-id:gene", "%s: novel transcript %s (%s:%d-%d) carries gene id %s which belongs to the reference gene at %s:%d-%d (%s)" %
+                                  (desc, tid, t["chr"], ex_[0][0], ex_[-1][1], gid, gc, gs, ge, fname), wit)
             if tid in ref_t:
                 rc, rs, rex = ref_t[tid]
                 if (t["chr"], t["strand"], tuple(sorted(t["exons"]))) != (rc, rs, rex):
